@@ -27,7 +27,10 @@ struct Scenario {
     // bytes to hash for the state count: the harness appends whatever identifies the shared state
     std::function<void(std::string &)> stateBytes;
     int maxDeviations = 2;
+    int startBound = 0;                           // first bound of the iteration (set = maxDeviations to skip the iterative deepening)
     bool spuriousCas = true;
+    bool pointAfterAtomics = false;               // extra scheduling point right after every atomic operation, so that plain
+                                                  // accesses to shared memory following it form a step of their own
     uint64_t stepBudget = 100000;                 // per execution; exceeding it = livelock
     uint64_t maxExecutions = 0;                   // 0 = unlimited (cap reported if hit)
     bool prune = false;                           // state-hash pruning (sound only if stateBytes+read history capture all local state)
@@ -54,6 +57,7 @@ void local(uint64_t v);                           // mix a process-local value i
 void waitUntil(const std::function<bool()> &pred);// block the calling process until pred() holds
 void yieldPoint();                                // explicit scheduling point (e.g. inside retry loops)
 uint64_t stepIndex();                             // global step counter of this execution
+uint64_t procSteps();                             // steps taken so far by the calling process (0 in main context)
 
 // explore all schedules with <= sc.maxDeviations deviations; stops at the first violation
 void explore(const Scenario &sc, Stats &st, double deadlineS = 0);
